@@ -78,7 +78,12 @@ func (ctx *_OpContextType) encodeRaw(xlen int, as abi.As, arg *abi.AsArgument) (
 		case AEBREAK:
 			return ctx.encodeI(0, 0, 0b_0000_0000_0001), nil
 		default:
-			return ctx.encodeI(ctx.regI(arg.Rd), ctx.regI(arg.Rs1), uint32(arg.Imm)), nil
+			imm := uint32(arg.Imm)
+			if ctx.HasShamt {
+				// the upper bits of the immediate field select the kind of shift (SRAI = 0b0100000)
+				imm |= ctx.Funct7 << 5
+			}
+			return ctx.encodeI(ctx.regI(arg.Rd), ctx.regI(arg.Rs1), imm), nil
 		}
 	case _S:
 		return ctx.encodeS(ctx.regI(arg.Rs1), ctx.regI(arg.Rs2), uint32(arg.Imm)), nil
